@@ -130,6 +130,16 @@ async fn pull_and_dispatch_messages(
     }
 }
 
+/// Runs one pull-and-dispatch pass for one subscription (verification hook).
+#[cfg(deltio_verif)]
+pub async fn verif_pull_and_dispatch(
+    subscription: Arc<Subscription>,
+    push_config: PushConfig,
+    client: reqwest::Client,
+) {
+    pull_and_dispatch_messages(subscription, push_config, client).await
+}
+
 /// Dispatches the message to the push endpoint and ACK/NACks it accordingly.
 async fn dispatch_message(
     subscription: Arc<Subscription>,
